@@ -39,6 +39,10 @@ pub struct Item {
     pub inter: Vec<(usize, String, String)>,
     #[serde(default)]
     pub key: u32,
+    /// data messages: 1 = an empty first fragment precedes the data, 2 = an empty continuation
+    /// precedes the last fragment, 3 = both (legal frames: a fragment may carry no payload)
+    #[serde(default)]
+    pub empty_frags: u8,
 }
 
 #[derive(Serialize, Deserialize, Clone, Debug)]
@@ -119,6 +123,14 @@ fn render(items: &[Item]) -> (Vec<RFrame>, Vec<(bool, Vec<u8>)>, Vec<Vec<u8>>, b
                 cuts.dedup();
                 cuts.truncate(4);
                 cuts.push(it.payload.len());
+                if it.empty_frags & 1 != 0 {
+                    cuts.insert(0, 0);
+                }
+                if it.empty_frags & 2 != 0 {
+                    let at = cuts.len() - 1;
+                    let prev = if at == 0 { 0 } else { cuts[at - 1] };
+                    cuts.insert(at, prev);
+                }
                 let mut start = 0;
                 let n = cuts.len();
                 for (fi, c) in cuts.iter().enumerate() {
@@ -258,7 +270,7 @@ impl Prop for C11 {
         }
     }
     fn rule(&self) -> &'static str {
-        "One case = a client script of 1..12 frames over {text, binary, continuation, ping, pong, close} (payloads 0..70 KiB, messages fragmented 1..5 ways with ping/pong frames interleaved and sometimes a Close in the middle of a fragmented message, arbitrary mask keys), a Sec-WebSocket-Key (printable string incl. empty and long, or absent), a delivery of the client byte stream (whole, byte-wise, cuts inside the 2-byte header / extended length / key / payload, with gaps), a handler mode (blocking recv, non-blocking recv + virtual sleep, or non-blocking for the first idle polls and blocking afterwards), echo on/off or 1..3 server-initiated messages of 10..70 000 bytes (sent after idle polls / before the first receive), optionally a slow-reading client (receive window 512..8192 bytes, reading delayed up to 1.5 s), and an ending (client Close, server returning early = drop, abrupt FIN, RST), under a seeded schedule and network knobs. Distinct = distinct (frame kinds, fragment counts, delivery class, handler mode, ending, what the server wrote); non-trivial = at least two frames and a cut inside a frame, or a control frame."
+        "One case = a client script of 1..12 frames over {text, binary, continuation, ping, pong, close} (payloads 0..70 KiB, messages fragmented 1..5 ways (sometimes with an empty first fragment or an empty continuation) with ping/pong frames interleaved and sometimes a Close in the middle of a fragmented message, arbitrary mask keys), a Sec-WebSocket-Key (printable string incl. empty and long, or absent), a delivery of the client byte stream (whole, byte-wise, cuts inside the 2-byte header / extended length / key / payload, with gaps), a handler mode (blocking recv, non-blocking recv + virtual sleep, or non-blocking for the first idle polls and blocking afterwards), echo on/off or 1..3 server-initiated messages of 10..70 000 bytes (sent after idle polls / before the first receive), optionally a slow-reading client (receive window 512..8192 bytes, reading delayed up to 1.5 s), and an ending (client Close, server returning early = drop, abrupt FIN, RST), under a seeded schedule and network knobs. Distinct = distinct (frame kinds, fragment counts, delivery class, handler mode, ending, what the server wrote); non-trivial = at least two frames and a cut inside a frame, or a control frame."
     }
     fn assumptions(&self) -> Vec<String> {
         vec![
@@ -268,7 +280,7 @@ impl Prop for C11 {
         ]
     }
     fn expected_counters(&self) -> Vec<&'static str> {
-        vec!["c11.runs", "c11.no_key", "c11.nonblocking", "c11.pings", "c11.fragmented_messages", "c11.interleaved_control", "c11.close_inside_fragmented_message", "c11.close_ending", "c11.server_drop_ending", "c11.abrupt_ending", "c11.cut_inside_header", "c11.large_payload", "c11.echo", "c11.server_initiated_messages", "c11.nonblocking_then_blocking", "c11.slow_reader"]
+        vec!["c11.runs", "c11.no_key", "c11.nonblocking", "c11.pings", "c11.fragmented_messages", "c11.interleaved_control", "c11.close_inside_fragmented_message", "c11.empty_fragments", "c11.close_ending", "c11.server_drop_ending", "c11.abrupt_ending", "c11.cut_inside_header", "c11.large_payload", "c11.echo", "c11.server_initiated_messages", "c11.nonblocking_then_blocking", "c11.slow_reader"]
     }
     fn real_vs_stub(&self) -> (Vec<&'static str>, Vec<&'static str>) {
         (vec!["humphrey_ws::{websocket_handler, handshake, WebsocketStream::{recv, recv_nonblocking, send, Drop}, Message::from_stream(_nonblocking), Frame}", "humphrey::App (upgrade dispatch), SHA-1/Base64 of the handshake"], vec!["TCP, threads, Instant (humsim)", "client is a harness reference RFC 6455 implementation"])
@@ -298,11 +310,21 @@ impl Prop for C11 {
             if nfr > 0 && Rng::new(humsim::rng::mix(&[run_seed(seed, "C11", idx), 0xC11_0003, items.len() as u64])).chance(1, 8) {
                 inter.push((nfr - 1, "close".to_string(), if rng.chance(1, 2) { "xx".to_string() } else { String::new() }));
             }
-            items.push(Item { kind: kind.into(), payload, frags, inter, key: rng.next_u64() as u32 });
+            let empty_frags = if kind == "text" || kind == "binary" {
+                let mut r3 = Rng::new(humsim::rng::mix(&[run_seed(seed, "C11", idx), 0xC11_0004, items.len() as u64]));
+                if r3.chance(1, 6) {
+                    1 + r3.below(3) as u8
+                } else {
+                    0
+                }
+            } else {
+                0
+            };
+            items.push(Item { kind: kind.into(), payload, frags, inter, key: rng.next_u64() as u32, empty_frags });
         }
         let ending = ["close", "close", "fin", "rst", "wait"][rng.usize_below(5)].to_string();
         if ending == "close" {
-            items.push(Item { kind: "close".into(), payload: if rng.chance(1, 2) { vec![0x03, 0xe8, b'o', b'k'] } else { vec![] }, frags: vec![], inter: vec![], key: 7 });
+            items.push(Item { kind: "close".into(), payload: if rng.chance(1, 2) { vec![0x03, 0xe8, b'o', b'k'] } else { vec![] }, frags: vec![], inter: vec![], key: 7, empty_frags: 0 });
         }
         let (frames, _, _, _) = render(&items);
         let total: usize = frames.iter().map(|f| f.encode().len()).sum();
@@ -467,6 +489,9 @@ impl Prop for C11 {
         rr.count("c11.pings", pings.len() as u64);
         if scn.items.iter().any(|i| !i.frags.is_empty()) {
             rr.count("c11.fragmented_messages", 1);
+        }
+        if scn.items.iter().any(|i| i.empty_frags != 0 && (i.kind == "text" || i.kind == "binary")) {
+            rr.count("c11.empty_fragments", 1);
         }
         if scn.items.iter().any(|i| !i.inter.is_empty() && !i.frags.is_empty()) {
             rr.count("c11.interleaved_control", 1);
